@@ -84,7 +84,7 @@ func FormatFromSchemaType(s string) *string {
 }
 
 func TokenType(s string) schema.TokenType {
-	if s[0] == '@' {
+	if len(s) != 0 && s[0] == '@' {
 		return schema.TokenTypeShortcut
 	}
 
